@@ -355,6 +355,12 @@ def parse_cmd_pkt(line: bytes) -> tuple[bytes, list[bytes]]:
     return cmd, args[:-1].split(b"\0")
 
 
+# A pkt-line is at most 65520 bytes long, including the four length digits
+# (LARGE_PACKET_MAX in git), so it carries at most 65516 bytes of data.
+MAX_PKT_LINE_LENGTH = 65520
+MAX_PKT_LINE_DATA_LENGTH = MAX_PKT_LINE_LENGTH - 4
+
+
 def pkt_line(data: bytes | None) -> bytes:
     """Wrap data in a pkt-line.
 
@@ -362,9 +368,17 @@ def pkt_line(data: bytes | None) -> bytes:
       data: The data to wrap, as a str or None.
     Returns: The data prefixed with its length in pkt-line format; if data was
         None, returns the flush-pkt ('0000').
+
+    Raises:
+      ValueError: if data does not fit in a single pkt-line.
     """
     if data is None:
         return b"0000"
+    if len(data) > MAX_PKT_LINE_DATA_LENGTH:
+        raise ValueError(
+            f"pkt-line payload of {len(data)} bytes exceeds the maximum of "
+            f"{MAX_PKT_LINE_DATA_LENGTH} bytes"
+        )
     return f"{len(data) + 4:04x}".encode("ascii") + data
 
 
@@ -512,7 +526,7 @@ class Protocol:
                     self.report_activity(4, "read")
                 logger.debug("git< %s", sizestr.decode("ascii"))
                 return None
-            if size < 4:
+            if size < 4 or size > MAX_PKT_LINE_LENGTH:
                 raise GitProtocolError(f"Invalid pkt-line length: {size:04x}")
             if self.report_activity:
                 self.report_activity(size, "read")
@@ -919,7 +933,7 @@ class PktLineParser:
             if size == 0:
                 self.handle_pkt(None)
                 buf = buf[4:]
-            elif size < 4:
+            elif size < 4 or size > MAX_PKT_LINE_LENGTH:
                 raise GitProtocolError(f"Invalid pkt-line length: {size:04x}")
             elif size <= len(buf):
                 self.handle_pkt(buf[4:size])
